@@ -6,7 +6,7 @@ PROP = dict(
     namespaces=["Comdex.C07"],
     required_theorems=["Comdex.C07.placement_takes_exactly", "Comdex.C07.taken_eq_offer_plus_fee", "Comdex.C07.finish_moves_exactly",
                        "Comdex.C07.fill_pays_demand_coins", "Comdex.C07.terminated_settled", "Comdex.C07.escrow_holds_only_live_orders",
-                       "Comdex.C07.cancellable_after_batch", "Comdex.C07.cancellable_after_batch_of_conserving", "Comdex.C07.lostOf_zero_of_modelled", "Comdex.C07.cancel_all_cancels_every_old_order", "Comdex.C07.order_keys_unique", "Comdex.C07.mm_index_complete", "Comdex.C07.mm_cancel_cancels_all", "Comdex.C07.mm_replace_cancels_all", "Comdex.C07.mm_cancel_cancels_indexed", "Comdex.C07.migration_preserves_orders",
+                       "Comdex.C07.cancellable_after_batch", "Comdex.C07.cancellable_after_batch_of_conserving", "Comdex.C07.lostOf_zero_of_modelled", "Comdex.C07.cancel_all_cancels_every_old_order", "Comdex.C07.order_keys_unique", "Comdex.C07.mm_index_complete", "Comdex.C07.mm_cancel_cancels_all", "Comdex.C07.mm_replace_cancels_all", "Comdex.C07.mm_cancel_cancels_indexed", "Comdex.C07.migration_preserves_orders", "Comdex.C07.fee_collector_exact", "Comdex.C07.pruning_moves_nothing", "Comdex.C07.ended_order_accounts",
                        "Comdex.C07.mm_cancel_cancels_all_counterexample"],
     harness_tests=["TestC07"],
     trusted_base=[KERNEL_TB, HARNESS_TB,
